@@ -164,6 +164,35 @@ class EventLog(object):
 # SimFS
 # ---------------------------------------------------------------------------------------------
 
+def resolve_path(symlinks, cwd, path, depth=0, isdir=None):
+    """Resolve a relative path the way a kernel does: component by component, following symbolic links to
+    directories *before* a later '..' is applied (which is where it differs from lexical normalisation).
+    symlinks: {key of the link: target path as stored in the link (relative to the link's directory)}.
+    Returns a normalised key relative to the simulated root ('.' for the root itself)."""
+    if depth > 8:
+        raise OSError(errno.ELOOP, os.strerror(errno.ELOOP), path)
+    stack = [c for c in cwd.split("/") if c] if cwd else []
+    parts = path.split("/")
+    for i, comp in enumerate(parts):
+        if comp in ("", "."):
+            continue
+        if comp == "..":
+            # the kernel looks '..' up *in* the directory reached so far: that directory has to exist
+            if stack and isdir is not None and not isdir("/".join(stack)):
+                raise FileNotFoundError(errno.ENOENT, os.strerror(errno.ENOENT), path)
+            if stack:
+                stack.pop()
+            continue
+        stack.append(comp)
+        key = "/".join(stack)
+        if key in symlinks and (i + 1 < len(parts) or True):
+            parent = "/".join(stack[:-1])
+            target = symlinks[key]
+            resolved = resolve_path(symlinks, parent, target, depth + 1, isdir)
+            stack = [] if resolved == "." else resolved.split("/")
+    return "/".join(stack) if stack else "."
+
+
 class _SimWriteFile(io.BytesIO):
     """Binary write handle.  Content reaches SimFS on flush/close, as one WRITE event each."""
 
@@ -213,6 +242,7 @@ class SimFS(object):
 
     def __init__(self, log):
         self.files = {}
+        self.symlinks = {}        # key -> target: symbolic links (to directories or files)
         self.cwd = ""             # simulated working directory of the current process, relative to SIM_ROOT
         self.log = log
         self.faults = {}          # path -> ("read_error", errno) consumed on open for reading
@@ -232,14 +262,21 @@ class SimFS(object):
             return None
         if path.startswith(SIM_ROOT + "/") or path == SIM_ROOT:
             rel = path[len(SIM_ROOT):].lstrip("/")
-            return posixpath.normpath(rel) if rel else "."
+            return self.resolve(rel, cwd="") if rel else "."
         if posixpath.isabs(path):
             return None
-        return posixpath.normpath(posixpath.join(self.cwd, path)) if self.cwd else posixpath.normpath(path)
+        return self.resolve(path)
+
+    def resolve(self, path, cwd=None):
+        """Key of a path as the kernel would resolve it from the process's working directory (symbolic links honoured)."""
+        try:
+            return resolve_path(self.symlinks, self.cwd if cwd is None else cwd, path, 0, self.is_dir)
+        except OSError:
+            return "\0unresolvable/" + path        # a key that exists nowhere: open -> ENOENT, exists -> False
 
     # operations --------------------------------------------------------------------------
     def exists(self, key):
-        if key == ".":
+        if key == "." or key in self.symlinks:
             return True
         if key in self.files:
             return True
@@ -702,16 +739,25 @@ class SimWorld(object):
 
     # -- peer / harness access to the host filesystem (logged as PEER events) ----------------
     def put(self, key, data, who="PEER"):
+        key = self.fs.resolve(key, cwd="")          # the peer writes through symbolic links like everybody else
         self.fs.files[key] = bytes(data)
         self.log.add(who, "put", key, len(data), sha(data))
 
     def get(self, key):
-        return self.fs.files.get(key)
+        return self.fs.files.get(self.fs.resolve(key, cwd="") if self.fs.symlinks else key)
 
     def delete(self, key, who="PEER"):
         if key in self.fs.files:
             del self.fs.files[key]
             self.log.add(who, "delete", key)
+
+    def symlink(self, key, target, who="SETUP"):
+        """A symbolic link at key pointing to target (as stored in the link: relative to the link's directory)."""
+        self.fs.symlinks[key] = target
+        self.log.add(who, "symlink", key, target)
+
+    def resolve(self, path):
+        return self.fs.resolve(path, cwd="")
 
 
 # ---------------------------------------------------------------------------------------------
@@ -783,6 +829,15 @@ class RealWorld(object):
             os.remove(self._path(key))
         except FileNotFoundError:
             pass
+
+    def symlink(self, key, target, who="SETUP"):
+        os.makedirs(os.path.dirname(self._path(key)) or self.root, exist_ok=True)
+        if not os.path.islink(self._path(key)):
+            os.symlink(target, self._path(key))
+
+    def resolve(self, path):
+        full = os.path.realpath(os.path.join(self.root, path))
+        return os.path.relpath(full, os.path.realpath(self.root))
 
     def _snapshot(self):
         snap = {}
